@@ -40,6 +40,17 @@ def registry_term(ctx: Ctx):
     return None
 
 
+def _fallback_registry(ctx: Ctx):
+    mgr = ctx.manager_class()
+    for m in mgr.methods.values():
+        for n in ast.walk(m.node):
+            if isinstance(n, ast.Call) and isinstance(n.func, ast.Attribute) and n.func.attr in ('add', 'append') \
+                    and isinstance(n.func.value, ast.Attribute) and isinstance(n.func.value.value, ast.Name) \
+                    and n.func.value.value.id == 'self' and 'task' in n.func.value.attr:
+                return ('attr', ('param', 'self'), n.func.value.attr)
+    return None
+
+
 def cancel_loops(ctx: Ctx, g: Graph) -> List[Ev]:
     """Loops whose body cancels the loop variable (Task.cancel())."""
     out = []
@@ -61,7 +72,10 @@ def rule_spawn_registered(ctx: Ctx, out: Collector) -> None:
     the registry that run()'s cleanup cancels."""
     reg = registry_term(ctx)
     if reg is None:
-        raise AnalysisError('cannot find the cancel-all loop in run() (LK anchors vanished)')
+        # no cancel-all loop in run() (LK-2 reports it): the registry is the container tasks are added to
+        reg = _fallback_registry(ctx)
+        if reg is None:
+            raise AnalysisError('neither a cancel-all loop nor a task registry found (LK anchors vanished)')
     n = 0
     for unit in list(ctx.p.functions.values()):
         env = FuncEnv.of(ctx.p, unit)
@@ -105,7 +119,12 @@ def rule_run_cleanup(ctx: Ctx, out: Collector) -> None:
     g = ctx.graph(ctx.manager_run().fid)
     loops = cancel_loops(ctx, g)
     if not loops:
-        raise AnalysisError('run() has no cancel-all loop (LK-2 anchor vanished)')
+        if not any(ctx.roles.spawn(ev) for ev in g.events('call')):
+            raise AnalysisError('run() neither spawns nor cancels (LK-2 anchors vanished)')
+        out.bad('LK-2', f'{g.root.module.name}::{g.root.qualname}::every exit after the root spawn cancels the registry',
+                g.evs[g.entry].where(), 'run() spawns tasks but contains no loop that cancels the registered tasks: whatever is still '
+                                        'running when run() returns, fails or is cancelled keeps running on the loop')
+        return
     reg = sym.term(ctx.p, loops[0].info['iter'], loops[0].inst)
     barrier = {lp.id for lp in loops if sym.term(ctx.p, lp.info['iter'], lp.inst) == reg}
     goals = {g.exit, g.rexit['exc'], g.rexit['cancel']}
